@@ -182,6 +182,14 @@ func (c *NoiseGrpcConn) ClientHandshake(_ context.Context, _ string,
 	}
 	c.ProxyConn = transportConn
 
+	// This object outlives the individual connections (it is the transport
+	// credentials object that is asked for a handshake on every new
+	// connection). Whatever was left unread of the previous connection's
+	// last record does not belong to the new connection.
+	c.nextMsgMtx.Lock()
+	c.nextMsg = nil
+	c.nextMsgMtx.Unlock()
+
 	// First, initialize a new noise machine with our static long term, and
 	// passphraseEntropy.
 	var err error
@@ -242,6 +250,14 @@ func (c *NoiseGrpcConn) ServerHandshake(conn net.Conn) (net.Conn,
 		return nil, nil, fmt.Errorf("invalid connection type")
 	}
 	c.ProxyConn = transportConn
+
+	// This object outlives the individual connections (it is the transport
+	// credentials object that is asked for a handshake on every new
+	// connection). Whatever was left unread of the previous connection's
+	// last record does not belong to the new connection.
+	c.nextMsgMtx.Lock()
+	c.nextMsg = nil
+	c.nextMsgMtx.Unlock()
 
 	// First, we'll initialize a new state machine with our static key,
 	// remote static key, passphrase, and also the authentication data.
